@@ -30,7 +30,8 @@ M = [
     ("pool-check-first-dep-only", ["C11"], "gwf/backends/local.py", "                for dep_tid in deps:\n                    if self.task_states[dep_tid] != LocalStatus.COMPLETED:", "                for dep_tid in list(deps)[:1]:\n                    if self.task_states[dep_tid] != LocalStatus.COMPLETED:"),
     ("pool-killed-counts-completed", ["C11"], "gwf/backends/local.py", "                    if self.task_states[dep_tid] != LocalStatus.COMPLETED:", "                    if self.task_states[dep_tid] not in (LocalStatus.COMPLETED, LocalStatus.KILLED):"),
     ("pool-swap-failed-killed", ["C13"], "gwf/backends/local.py", "        except TaskFailedError:\n            self.task_states[tid] = LocalStatus.FAILED", "        except TaskFailedError:\n            self.task_states[tid] = LocalStatus.COMPLETED"),
-    ("pool-cancel-final", ["C13"], "gwf/backends/local.py", "        if self.task_states[tid] in (LocalStatus.SUBMITTED, LocalStatus.RUNNING):", "        if True:"),
+    ("pool-cancel-final", ["C13"], "gwf/backends/local.py", "        if self.task_states.get(tid) in (LocalStatus.SUBMITTED, LocalStatus.RUNNING):", "        if True:"),
+    ("local-cancel-unreported", ["C17"], "gwf/backends/local.py", "        if state not in (LocalStatus.SUBMITTED, LocalStatus.RUNNING):\n            raise BackendError(f\"Task {job_id} is not submitted or running.\")\n", ""),
     ("pool-no-catchall", ["C13"], "gwf/backends/local.py", "        except Exception:\n            logger.exception(\"task %s could not be run\", name)\n            if proc is not None and proc.returncode is None:\n                await self._gentle_kill(proc)\n            self.task_states[tid] = LocalStatus.FAILED\n", ""),
     ("pool-timeout-completed", ["C13"], "gwf/backends/local.py", "            self.task_states[tid] = LocalStatus.KILLED", "            self.task_states[tid] = LocalStatus.COMPLETED"),
     ("pool-logs-swapped", ["C13"], "gwf/backends/local.py", "                    log_file.write(stderr)", "                    log_file.write(stdout)"),
